@@ -19,13 +19,14 @@
 (*              re-delivered at the same instant; when nothing else is due  *)
 (*              at this instant the clock can never advance                 *)
 (*   Tick       nothing is due now: the clock jumps to the next due time    *)
-(* The contract (the Inv.. predicates) talks about observable things only: who holds how    *)
-(* much, the public counter `avail`, request order, grant order, the clock. *)
+(* The contract (the Inv.. predicates at the end) talks about observable    *)
+(* things only: who holds how much, the public counter `avail`, request    *)
+(* order, grant order, the clock.                                           *)
 EXTENDS CapOps, TLC
 
 CONSTANTS NW,       \* number of workers
-          Cfgs,     \* set of primitive configurations [kind, cap, qmax, maxamt] explored in one run
-          MaxArr, MaxHold, Dev
+          Cfgs,     \* set of primitive configurations [kind, cap, qmax, maxamt, maxhold] explored in one run
+          MaxArr, Dev
 
 W == 1..NW
 INF == 99
@@ -41,7 +42,7 @@ vars == <<sc, now, pc, due, p, h>>
 
 Modes(c) == IF c.kind = "rwlock" THEN {"r", "w"} ELSE {"x"}
 ScenariosOf(c) == [cfg : {c}, amt : [W -> 1..c.maxamt], mode : [W -> Modes(c)], arr : [W -> 0..MaxArr],
-                   hold : [W -> 0..MaxHold]]
+                   hold : [W -> 0..c.maxhold]]
 Scenarios == UNION { ScenariosOf(c) : c \in Cfgs }
 Kind == sc.cfg.kind
 Cap == sc.cfg.cap
